@@ -9,7 +9,152 @@ package util
 //@   ensures #dom: forall n corev1.ResourceName :: has(result, n) <==> (has(a, n) && val(a, n) > val(b, n))
 //@   ensures #val: forall n corev1.ResourceName :: has(result, n) ==> val(result, n) == val(a, n) - val(b, n)
 //@   ensures #fresh: result != nil && result != a && result != b
+//@   ensures #new: fresh(result)
+//@   modifies nothing
 //@   loop 1 invariant res != nil && res != a && res != b && fresh(res)
 //@   loop 1 invariant forall n corev1.ResourceName :: has(res, n) <==> ($seen[n] && has(a, n) && val(a, n) > val(b, n))
 //@   loop 1 invariant forall n corev1.ResourceName :: has(res, n) ==> val(res, n) == val(a, n) - val(b, n)
 //@   loop 1 invariant forall n corev1.ResourceName :: $seen[n] ==> has(a, n)
+
+// merge by maximum: a fresh list; every resource of b raises the entry to at least b's amount
+// (an entry is created only for a positive amount), every other entry is a's.
+//@ func mergeResourceListByMax [C11]
+//@   ensures #fresh: result != nil && result != a && result != b && fresh(result)
+//@   ensures #dom: forall n corev1.ResourceName :: has(result, n) <==> (has(a, n) || (has(b, n) && val(b, n) > 0))
+//@   ensures #val: forall n corev1.ResourceName :: val(result, n) == (has(b, n) ? max(val(a, n), val(b, n)) : val(a, n))
+//@   modifies nothing
+//@   loop 1 invariant res != nil && res != a && res != b && fresh(res)
+//@   loop 1 invariant forall n corev1.ResourceName :: has(res, n) <==> (has(a, n) || ($seen[n] && has(b, n) && val(b, n) > val(a, n)))
+//@   loop 1 invariant forall n corev1.ResourceName :: val(res, n) == ($seen[n] && has(b, n) ? max(val(a, n), val(b, n)) : val(a, n))
+//@   loop 1 invariant forall n corev1.ResourceName :: $seen[n] ==> has(b, n)
+
+//@ func isZeroResourceList [C11]
+//@   ensures #iff: result <==> (forall n corev1.ResourceName :: has(a, n) ==> val(a, n) == 0)
+//@   modifies nothing
+//@   loop 1 invariant forall n corev1.ResourceName :: $seen[n] ==> has(a, n) && val(a, n) == 0
+
+// Well-formed release list: every entry is a non-nil resource list and distinct targets own distinct lists.
+//@ spec func relOK(a map[ReleaseTargetType]corev1.ResourceList) bool = a != nil && (forall t ReleaseTargetType :: {has(a, t)} has(a, t) ==> a[t] != nil) && (forall t ReleaseTargetType, u ReleaseTargetType :: {has(a, t), has(a, u)} has(a, t) && has(a, u) && t != u ==> a[t] != a[u])
+
+// a[t] += b[t] for every target t of b (per resource); lists of a keep their identity, missing ones are created.
+//@ func addResource [C11]
+//@   requires relOK(a) && a != b
+//@   requires forall t ReleaseTargetType, u ReleaseTargetType :: {has(a, t), has(b, u)} has(a, t) && has(b, u) ==> a[t] != b[u]
+//@   ensures #ok: relOK(a)
+//@   ensures #dom: forall t ReleaseTargetType :: has(a, t) <==> (old(has(a, t)) || has(b, t))
+//@   ensures #same: forall t ReleaseTargetType :: old(has(a, t)) ==> a[t] == old(a[t])
+//@   ensures #new: forall t ReleaseTargetType :: has(a, t) && !old(has(a, t)) ==> fresh(a[t])
+//@   ensures #val: forall t ReleaseTargetType, n corev1.ResourceName :: has(a, t) ==> val(a[t], n) == old(val(a[t], n)) + (has(b, t) ? val(b[t], n) : 0)
+//@   ensures #has: forall t ReleaseTargetType, n corev1.ResourceName :: has(a, t) ==> (has(a[t], n) <==> (old(has(a[t], n)) || (has(b, t) && has(b[t], n))))
+//@   ensures #keepdom: forall m corev1.ResourceList, n corev1.ResourceName :: {has(m, n)} (forall t ReleaseTargetType :: {a[t]} has(a, t) ==> a[t] != m) ==> has(m, n) == old(has(m, n))
+//@   ensures #keepval: forall m corev1.ResourceList, n corev1.ResourceName :: {val(m, n)} (forall t ReleaseTargetType :: {a[t]} has(a, t) ==> a[t] != m) ==> val(m, n) == old(val(m, n))
+//@   ensures #keeprel: forall r ReleaseList, t ReleaseTargetType :: {has(r, t)} {r[t]} r != a ==> has(r, t) == old(has(r, t)) && r[t] == old(r[t])
+//@   modifies contents(a), allmaps(a[ReleaseTargetTypeResourceUsed])    // entries of a; entries of resource lists (narrowed by #keepdom/#keepval)
+//@   loop 1 invariant relOK(a) && a != b
+//@   loop 1 invariant forall m corev1.ResourceList, n corev1.ResourceName :: {has(m, n)} (forall t ReleaseTargetType :: {a[t]} has(a, t) ==> a[t] != m) ==> has(m, n) == old(has(m, n))
+//@   loop 1 invariant forall m corev1.ResourceList, n corev1.ResourceName :: {val(m, n)} (forall t ReleaseTargetType :: {a[t]} has(a, t) ==> a[t] != m) ==> val(m, n) == old(val(m, n))
+//@   loop 1 invariant forall r ReleaseList, t ReleaseTargetType :: {has(r, t)} {r[t]} r != a ==> has(r, t) == old(has(r, t)) && r[t] == old(r[t])
+//@   loop 1 invariant forall t ReleaseTargetType :: $seen[t] ==> has(b, t)
+//@   loop 1 invariant forall t ReleaseTargetType :: has(a, t) <==> (old(has(a, t)) || $seen[t])
+//@   loop 1 invariant forall t ReleaseTargetType :: old(has(a, t)) ==> a[t] == old(a[t])
+//@   loop 1 invariant forall t ReleaseTargetType :: has(a, t) && !old(has(a, t)) ==> fresh(a[t])
+//@   loop 1 invariant forall u ReleaseTargetType, n corev1.ResourceName :: has(b, u) ==> val(b[u], n) == old(val(b[u], n)) && has(b[u], n) == old(has(b[u], n))
+//@   loop 1 invariant forall t ReleaseTargetType, n corev1.ResourceName :: has(a, t) ==> val(a[t], n) == old(val(a[t], n)) + ($seen[t] ? val(b[t], n) : 0)
+//@   loop 1 invariant forall t ReleaseTargetType, n corev1.ResourceName :: has(a, t) ==> (has(a[t], n) <==> (old(has(a[t], n)) || ($seen[t] && has(b[t], n))))
+
+// Opt-out of an eviction policy. policyListed is the environment part (uninterpreted): "the JSON text decodes to a
+// string list that contains the policy". A pod without the evict-policy annotation is allowed for every policy; a pod
+// with it is allowed exactly for the listed policies (an undecodable annotation lists nothing).
+// ASSUMED (option trusted): encoding/json is not modelled, so the body cannot be connected to policyListed; the
+// strategies' eligibility contracts are stated over policyAllowed.
+//@ spec func policyListed(content string, policy string) bool
+//@ spec func policyAllowed(policy string, pod *corev1.Pod) bool = pod == nil || pod.ObjectMeta.Annotations == nil || !has(pod.ObjectMeta.Annotations, apiext.AnnotationPodEvictPolicy) || policyListed(pod.ObjectMeta.Annotations[apiext.AnnotationPodEvictPolicy], policy)
+//@ func IsEvictionPolicyAllowed [C11]
+//@   ensures #fn: result == policyAllowed(policy, pod)
+//@   modifies nothing
+//@   option trusted
+
+// cpu is carried in milli units, everything else in units.
+//@ func ConvertInt64ToQuantity [C11]
+//@   ensures #cpu: resourceName == corev1.ResourceCPU ==> result.MilliValue() == value
+//@   ensures #other: resourceName != corev1.ResourceCPU ==> result.Value() == value
+//@   modifies nothing
+
+//@ func ConvertQuantityToInt64 [C11]
+//@   ensures #cpu: resourceName == corev1.ResourceCPU ==> result == quantity.MilliValue()
+//@   ensures #other: resourceName != corev1.ResourceCPU ==> result == quantity.Value()
+//@   modifies nothing
+
+// The per-pod release aggregated over all tasks (closure aggregateReleaseFunc of KillAndEvictPods). The per-task
+// resource functions are arbitrary function values (called for their result only); what the eviction loop relies on
+// is the shape: a fresh map of fresh, pairwise distinct lists, and no change to any list or release map that existed.
+// Frame: the closure allocates resource lists inside loops, so the declared write-set is "entries of resource lists"
+// (allmaps(x) names the whole family through any expression x of that type), narrowed by the postconditions #keep*:
+// no list / release map that existed at the call is changed.
+//@ func KillAndEvictPods$2 [C11]
+//@   ensures #fresh: result != nil && fresh(result)
+//@   ensures #lists: forall t ReleaseTargetType :: {has(result, t)} has(result, t) ==> result[t] != nil && fresh(result[t])
+//@   ensures #distinct: forall t ReleaseTargetType, u ReleaseTargetType :: {has(result, t), has(result, u)} has(result, t) && has(result, u) && t != u ==> result[t] != result[u]
+//@   ensures #keepdom: forall m corev1.ResourceList, n corev1.ResourceName :: {has(m, n)} !fresh(m) ==> has(m, n) == old(has(m, n))
+//@   ensures #keepval: forall m corev1.ResourceList, n corev1.ResourceName :: {val(m, n)} !fresh(m) ==> val(m, n) == old(val(m, n))
+//@   ensures #keeprel: forall r ReleaseList, t ReleaseTargetType :: {has(r, t)} {r[t]} !fresh(r) ==> has(r, t) == old(has(r, t)) && r[t] == old(r[t])
+//@   modifies allmaps(info.Pod.Spec.Overhead)
+//@   option observers f
+//@   loop 1 invariant sum != nil && fresh(sum)
+//@   loop 1 invariant forall t ReleaseTargetType :: {has(sum, t)} has(sum, t) ==> sum[t] != nil && fresh(sum[t])
+//@   loop 1 invariant forall t ReleaseTargetType, u ReleaseTargetType :: {has(sum, t), has(sum, u)} has(sum, t) && has(sum, u) && t != u ==> sum[t] != sum[u]
+//@   loop 1 invariant forall m corev1.ResourceList, n corev1.ResourceName :: {has(m, n)} !fresh(m) ==> has(m, n) == old(has(m, n))
+//@   loop 1 invariant forall m corev1.ResourceList, n corev1.ResourceName :: {val(m, n)} !fresh(m) ==> val(m, n) == old(val(m, n))
+//@   loop 1 invariant forall r ReleaseList, t ReleaseTargetType :: {has(r, t)} {r[t]} !fresh(r) ==> has(r, t) == old(has(r, t)) && r[t] == old(r[t])
+//@   loop 2 invariant sum != nil && fresh(sum)
+//@   loop 2 invariant forall t ReleaseTargetType :: {has(sum, t)} has(sum, t) ==> sum[t] != nil && fresh(sum[t])
+//@   loop 2 invariant forall t ReleaseTargetType, u ReleaseTargetType :: {has(sum, t), has(sum, u)} has(sum, t) && has(sum, u) && t != u ==> sum[t] != sum[u]
+//@   loop 2 invariant forall m corev1.ResourceList, n corev1.ResourceName :: {has(m, n)} !fresh(m) ==> has(m, n) == old(has(m, n))
+//@   loop 2 invariant forall m corev1.ResourceList, n corev1.ResourceName :: {val(m, n)} !fresh(m) ==> val(m, n) == old(val(m, n))
+//@   loop 2 invariant forall r ReleaseList, t ReleaseTargetType :: {has(r, t)} {r[t]} !fresh(r) ==> has(r, t) == old(has(r, t)) && r[t] == old(r[t])
+
+// Structural invariant of the accumulated release: a fresh map of fresh, non-nil, pairwise distinct lists.
+//@ spec func relFresh(r ReleaseList) bool = relOK(r) && fresh(r) && (forall t ReleaseTargetType :: {has(r, t)} has(r, t) ==> fresh(r[t]))
+// No list that existed when the function was entered has been touched.
+//@ spec func oldListsKept() bool = (forall m corev1.ResourceList, n corev1.ResourceName :: {has(m, n)} !fresh(m) ==> has(m, n) == old(has(m, n))) && (forall m corev1.ResourceList, n corev1.ResourceName :: {val(m, n)} !fresh(m) ==> val(m, n) == old(val(m, n)))
+// Some resource of the task's target is still short of what has been released (or is pending release) for its target type.
+//@ spec func stillShort(want corev1.ResourceList, got corev1.ResourceList) bool = exists n corev1.ResourceName :: has(want, n) && val(want, n) > val(got, n)
+
+// The shared eviction loop. At EVERY call of the executor's Evict:
+//   #once   the pod has not been evicted (nor counted as pending) earlier in this invocation,
+//   #short  the task's target is not yet covered by what was released so far (evicted + still-terminating pods),
+//   #order  the pod is the element of the task's sorted victim list the ascending `range` loop currently stands at
+//           (the range index itself cannot be named at a call site; membership of the current element is stated).
+// Whenever a pod's release is added to the totals (evicted now, or evicted earlier and still terminating):
+//   #recorded the pod's key is already in the evicted set, so it can neither be evicted nor counted again.
+// After the per-pod release of a successfully evicted pod has been computed:
+//   #frees  the pod frees a positive amount of some resource that was still short.
+//@ func KillAndEvictPods [C11]
+//@   requires forall i int :: {tasks[i]} 0 <= i && i < len(tasks) ==> tasks[i] != nil
+//@   ensures #res: result0 != nil && fresh(result0)
+//@   ensures #newly: result1 ==> calls("Evict") >= 1
+//@   ensures #notnewly: !result1 ==> calls("Evict") == 0 || !lastresult("Evict")    // with the loop invariants: no Evict call of this invocation succeeded
+//@   ensures #kept: oldListsKept()
+//@   assert before call Evict: #once: !evictedPodsMp[util.GetPodKey($arg0)]
+//@   assert before call Evict: #short: stillShort(task.ToReleaseResource, releasedAll[task.ReleaseTarget])
+//@   assert before call Evict: #order: $arg0 == info.Pod && (exists k int :: {task.SortedEvictPods[k]} 0 <= k && k < len(task.SortedEvictPods) && task.SortedEvictPods[k] == info)
+//@   assert before call KillAndEvictPods$2: #recorded: $arg0 == info && evictedPodsMp[util.GetPodKey(info.Pod)]
+//@   assert after call KillAndEvictPods$2#1: #frees: exists n corev1.ResourceName :: has(task.ToReleaseResource, n) && val(task.ToReleaseResource, n) > val(releasedAll[task.ReleaseTarget], n) && val(result[task.ReleaseTarget], n) > 0
+//@   loop 1 invariant relFresh(releasedAll) && evictedPodsMp != nil && releaseTypes != nil && fresh(releaseTypes) && oldListsKept()
+//@   loop 2 invariant relFresh(releasedAll) && evictedPodsMp != nil && releaseTypes != nil && fresh(releaseTypes) && oldListsKept()
+//@   loop 3 invariant relFresh(releasedAll) && evictedPodsMp != nil && oldListsKept()
+//@   loop 3 invariant calls("Evict") >= 0 && (newlyEvicted ==> calls("Evict") >= 1)
+//@   loop 3 invariant !newlyEvicted ==> calls("Evict") == 0 || !lastresult("Evict")
+//@   loop 4 invariant relFresh(releasedAll) && evictedPodsMp != nil && oldListsKept()
+//@   loop 4 invariant calls("Evict") >= 0 && (newlyEvicted ==> calls("Evict") >= 1)
+//@   loop 4 invariant !newlyEvicted ==> calls("Evict") == 0 || !lastresult("Evict")
+//@   loop 4 invariant 0 <= $i && $i <= len(podInfos) && podInfos == task.SortedEvictPods
+//@   loop 4 invariant #short: stillShort(task.ToReleaseResource, releasedAll[releaseTarget])
+
+// A task is reported finished exactly when nothing of its target is still short of the accumulated release
+// (callers pass the non-nil list returned by KillAndEvictPods, see #res there); otherwise the shortfall is returned.
+//@ func EvictTaskCheck [C11]
+//@   requires released != nil
+//@   ensures #done: result0 <==> (task == nil || !stillShort(task.ToReleaseResource, released[task.ReleaseTarget]))
+//@   ensures #rest: !result0 ==> (forall n corev1.ResourceName :: val(result1, n) == (has(task.ToReleaseResource, n) ? max0(val(task.ToReleaseResource, n) - val(released[task.ReleaseTarget], n)) : 0))
+//@   modifies nothing
